@@ -277,7 +277,7 @@ class XMLResourceLoader:
                 else:
                     yield event, node  # comment or pi node
 
-        except SyntaxError as err:
+        except (SyntaxError, LookupError, ValueError) as err:  # unknown or unusable encoding
             raise XMLResourceParseError("invalid XML syntax: {}".format(err)) from err
         finally:
             self._lazy_lock.release()
@@ -328,7 +328,7 @@ class XMLResourceLoader:
                     if end_ns:
                         nsmap_stack.pop()
                         end_ns = False
-        except SyntaxError as err:
+        except (SyntaxError, LookupError, ValueError) as err:  # unknown or unusable encoding
             raise XMLResourceParseError("invalid XML syntax: {}".format(err)) from err
 
     def _clear(self, elem: ElementType,
